@@ -254,6 +254,7 @@ type c04Scenario struct {
 	MaxRuns    int
 	RandomRuns int
 	Drain      int
+	Scripts    [][][]int // directed schedules: list of [thread, steps] segments (steps < 0: until the thread returns)
 }
 
 type c04Ev struct {
@@ -285,6 +286,7 @@ type c04Thread struct {
 	done   bool
 	at     string // label of the point the thread is paused at ("" = not started / finished)
 	midOp  bool
+	spin   int // yield points passed inside the current operation
 }
 
 type c04Run struct {
@@ -348,6 +350,7 @@ func (r *c04Run) doOp(th int, op []int64) {
 
 func (r *c04Run) yield(t *c04Thread, at string) {
 	t.at = at
+	t.spin++
 	r.events <- c04Yield{t: t, at: at}
 	<-t.resume
 }
@@ -378,14 +381,18 @@ func c04Execute(sc *c04Scenario, prefix []int, policy func(step int, enabled []i
 					r.yield(t, "op-boundary")
 				}
 				t.midOp = true
+				t.spin = 0
 				r.doOp(t.id, op)
 				t.midOp = false
+				t.spin = 0
 			}
 			t.at = ""
 			r.events <- c04Yield{t: t, done: true}
 		}(t, ops)
 	}
 	verifMbHook.Store(&hook)
+	watchdog := time.NewTimer(20 * time.Second)
+	defer watchdog.Stop()
 	curID := -1
 	for step := 0; ; step++ {
 		var enabled []int
@@ -414,12 +421,33 @@ func c04Execute(sc *c04Scenario, prefix []int, policy func(step int, enabled []i
 		if chosen < 0 && policy != nil {
 			chosen = policy(step, enabled, curID, curEnabled)
 		}
+		// A thread that has passed many yield points inside one call is (probably) spinning on
+		// another thread's progress (the ring's CAS retry loop does): hand over, round-robin.
+		spinning := curEnabled && r.threads[curID].spin > c04SpinLimit && len(enabled) > 1
+		if spinning && (chosen < 0 || chosen == curID) {
+			chosen = -1
+			for _, e := range enabled {
+				if e > curID {
+					chosen = e
+					break
+				}
+			}
+			if chosen < 0 {
+				chosen = enabled[0]
+			}
+			r.threads[curID].spin = c04SpinLimit / 2
+		}
 		if chosen < 0 {
 			if curEnabled {
 				chosen = curID
 			} else {
 				chosen = enabled[0]
 			}
+		}
+		if step > c04MaxSteps {
+			r.hung = fmt.Sprintf("no termination after %d scheduling steps (threads still running: %v)", step, enabled)
+			verifMbHook.Store(nil)
+			return r
 		}
 		r.steps = append(r.steps, c04Step{enabled: enabled, chosen: chosen, cur: curID, curEnabled: curEnabled})
 		t := r.threads[chosen]
@@ -431,7 +459,7 @@ func c04Execute(sc *c04Scenario, prefix []int, policy func(step int, enabled []i
 			if y.done {
 				y.t.done = true
 			}
-		case <-time.After(10 * time.Second):
+		case <-watchdog.C:
 			// the running thread neither returned nor reached another yield point: it spins or blocks
 			r.hung = fmt.Sprintf("thread %d does not return or reach a yield point after %s", chosen, t.at)
 			verifMbHook.Store(nil)
@@ -457,6 +485,11 @@ func c04Execute(sc *c04Scenario, prefix []int, policy func(step int, enabled []i
 	}
 	return r
 }
+
+const (
+	c04SpinLimit = 60
+	c04MaxSteps  = 200000
+)
 
 type c04Viol struct {
 	Sig      string
@@ -732,13 +765,16 @@ type c04SchedSummary struct {
 	SigCounts  map[string]int
 	Sample     []string
 	Hung       bool
+	Millis     int64
 }
 
-func c04Explore(sc *c04Scenario, rng *verifRNG) c04SchedSummary {
+func c04Explore(sc *c04Scenario, rng *verifRNG) (sum c04SchedSummary) {
 	if sc.Procs > 0 {
 		defer runtime.GOMAXPROCS(runtime.GOMAXPROCS(sc.Procs))
 	}
-	sum := c04SchedSummary{Scenario: sc.Name, K: sc.K, SigCounts: map[string]int{}}
+	sum = c04SchedSummary{Scenario: sc.Name, K: sc.K, SigCounts: map[string]int{}}
+	t0 := time.Now()
+	defer func() { sum.Millis = time.Since(t0).Milliseconds() }()
 	distinct := map[string]bool{}
 	type prefix struct {
 		choices  []int
@@ -810,6 +846,34 @@ func c04Explore(sc *c04Scenario, rng *verifRNG) c04SchedSummary {
 				sum.MaxPre = lvl
 			}
 		}
+	}
+	for _, script := range sc.Scripts {
+		if sum.Hung {
+			break
+		}
+		seg, used := 0, 0
+		r := c04Execute(sc, nil, func(step int, enabled []int, cur int, curEnabled bool) int {
+			for seg < len(script) {
+				th, n := script[seg][0], script[seg][1]
+				on := false
+				for _, e := range enabled {
+					if e == th {
+						on = true
+					}
+				}
+				if on && (n < 0 || used < n) {
+					used++
+					return th
+				}
+				seg, used = seg+1, 0
+			}
+			return -1
+		})
+		sched := make([]int, len(r.steps))
+		for i, s := range r.steps {
+			sched[i] = s.chosen
+		}
+		check(r, sched)
 	}
 	for i := 0; i < sc.RandomRuns && !sum.Hung; i++ {
 		r := c04Execute(sc, nil, func(step int, enabled []int, cur int, curEnabled bool) int {
